@@ -906,7 +906,8 @@ pub fn gen_case(t: &mut Tape, excl: &Excl) -> Case {
 /// Module leg: the fns of one entraited module name their type / const parameters alike (`T`, `U`, `N`), with equal or
 /// different bounds, in any declaration order; some use a parameter in no argument. The trait has one parameter per name.
 pub fn gen_mod_case(t: &mut Tape) -> Case {
-    const TB: [&str; 3] = ["Clone", "Default", "PartialEq"];
+    // (the last two: one trait with different generic arguments - different bounds, however alike their paths)
+    const TB: [&str; 5] = ["Clone", "Default", "PartialEq", "From<u8>", "From<u16>"];
     const UB: [&str; 2] = ["Clone", "Default"];
     let nf = t.range(2, 4);
     let mut order: Vec<&str> = vec![]; // first-appearance order of the names = parameter order of the trait
